@@ -152,6 +152,13 @@ def st_history(spec, golden):
                         d = MazeDataset.generate(c, gen_parallel=op[2], pool_kwargs=dict(op[4]))
                     others.append(d)
                     events.append(["generate", op[1]["seed"], op[2], len(d)])
+                elif k == "cache_roundtrip":
+                    # another user of the library saves and re-loads a dataset through the on-disk cache (load() re-seeds)
+                    c = _ds.make_cfg(op[1])
+                    base = os.path.join(spec["scratch"], "cache%d" % len(events))
+                    MazeDataset.from_config(c, local_base_path=base)
+                    others.append(MazeDataset.from_config(_ds.make_cfg(op[1]), local_base_path=base))
+                    events.append(["cache_roundtrip", op[1]["seed"]])
                 elif k == "filter_other":
                     if others:
                         d = others[op[1] % len(others)]
@@ -194,7 +201,8 @@ def st_history(spec, golden):
                         bump("probe_noise_between_construction_and_probe")
                     bump("probes")
                     if before != after:
-                        viol = ["C04.caller-config-modified", f"probe {op[1]} modified the configuration object passed in: {before[0]} -> {after[0]}"]
+                        what = "fields " + str({k: (before[0][k], after[0].get(k)) for k in before[0] if before[0][k] != after[0].get(k)}) if before[0] != after[0] else ("its applied_filters list object was replaced" if before[1] != after[1] else "its serialised form changed")
+                        viol = ["C04.caller-config-modified", f"probe {op[1]} modified the configuration object passed in: {what}"]
                         break
                     if "raised" in golden:
                         if exc is None:
@@ -237,6 +245,7 @@ def st_history(spec, golden):
             except Exception as e:  # noqa: BLE001 - noise ops may fail (documented generation errors); they are only noise
                 events.append(["noise-failed", k, type(e).__name__])
                 bump("noise_failed")
+                bump("noise_failed_" + k + "_" + type(e).__name__)
                 continue
             noise_since_T += 1
     return {"violation": viol, "events": events, "stats": stats}
@@ -262,7 +271,7 @@ def run(spec: dict, ctx) -> dict:
                 stats=stats,
                 spec=spec,
             )
-    res = core.stage(st_history, spec, golden, timeout=500.0)
+    res = core.stage(st_history, dict(spec, scratch=ctx.scratch), golden, timeout=500.0)
     log.add("history", res["events"])
     for k, v in res["stats"].items():
         stats[k] = stats.get(k, 0) + v
@@ -312,6 +321,9 @@ def rand_noise(rng: random.Random, T: dict) -> list:
         c = _ds.rand_cfgspec(rng, max_n=5, max_mazes=4, filters=rng.random() < 0.3, rich_endpoints=False)
         par = rng.random() < 0.3
         return ["generate", c, par, rng.choice(["generate", "from_config"]), ({"processes": rng.randint(1, 3)} if par else {})]
+    if r < 0.76:
+        c = _ds.rand_cfgspec(rng, max_n=4, max_mazes=3, filters=False, rich_endpoints=False)
+        return ["cache_roundtrip", c]
     if r < 0.82:
         return ["filter_other", rng.randrange(4), rng.choice(["deepcopy", "path_length"]), rng.randint(1, 3)]
     if r < 0.92:
